@@ -35,7 +35,9 @@ def fuzz(ctx, cases, every, seed, maxwords):
         total["sig_counts"]["C15:process-died:" + cls] = total["sig_counts"].get("C15:process-died:" + cls, 0) + 1
         total["evaluations"] += int(n) - skip
         skip = int(n)
-    raise C.Broken("codecfuzz child died 40 times")
+    # forty mutants killed the process: each is reported; the remaining ones were not examined
+    total["extra"] = {"stopped_after_deaths": 40}
+    return total
 
 
 def run(ctx):
